@@ -85,6 +85,11 @@ package trie
 //@   ensures @C15 result <==> chain(H0, V0, t, B, O, N)
 //@   ensures @C15 forall x int, c int :: {H1[x][c]} 0 < x && x <= A0 && H1[x][c] ==> H0[x][c] && V1[x][c] == V0[x][c]
 //@   ensures @C15 result && N > 0 ==> !chain(H1, V1, t, B, O, N)
+// pruning: a child link that is gone lay on b's path (it is the link from the i-th node of the path under b[i]), and a link
+// other than the last one is cut only when every deeper node of the path has been left without children
+//@   ensures @C15 result ==> forall y int, c int :: {H0[y][c]} 0 < y && y <= A0 && H0[y][c] && !H1[y][c] ==>
+//@             exists i int :: 0 <= i && i < N && y == walk(H0, V0, t, B, O, i) && c == B[O + i] &&
+//@               forall i2 int, c2 int :: {H1[walk(H0, V0, t, B, O, i2)][c2]} i < i2 && i2 < N ==> !H1[walk(H0, V0, t, B, O, i2)][c2]
 //@   ensures alloc == A0 && closed(H1, V1, alloc)
 //@   ensures forall x ref :: x != nil ==> !isnil(x.m)
 //@   ensures forall x ref, k int :: has(x.m, k) ==> x.m[k] != nil
@@ -103,6 +108,9 @@ package trie
 //@     invariant closed(heaphas(t.m), heapval(t.m), alloc)
 //@     invariant @C15 forall x int, c int :: {heaphas(t.m)[x][c]} 0 < x && x <= A0 && heaphas(t.m)[x][c] ==> H0[x][c] && heapval(t.m)[x][c] == V0[x][c]
 //@     invariant @C15 i < N - 1 ==> !heaphas(t.m)[stack[N - 1]][B[O + N - 1]]
+//@     invariant @C15 forall y int, c int :: {H0[y][c]} 0 < y && y <= A0 && H0[y][c] && !heaphas(t.m)[y][c] ==>
+//@                 exists i2 int :: i < i2 && i2 < N && y == stack[i2] && c == B[O + i2]
+//@     invariant @C15 forall i2 int, c2 int :: {heaphas(t.m)[stack[i2]][c2]} i < i2 && i2 < N ==> !heaphas(t.m)[stack[i2]][c2]
 //@     decreases i + 1
 
 //@ func Trie.keys
